@@ -48,17 +48,18 @@ theorem getRegularization_nonneg (reg : α) (c : Bool) : 0 ≤ getRegularization
     exact not_lt.mp h
 
 /-- `Laplacian._matvec` without normalisation is `(D_reg − A_reg) x` -/
-theorem lapMatvec_plain (F : Fn α) (n : Nat) (hn : 0 < n) (a : Mat α) (reg : α) (hreg : 0 ≤ reg)
+theorem lapMatvec_plain (F : Fn α) (n : Nat) (hn : 0 < n) (a : Mat α) (reg : α)
     (x : Vec α) (i : Nat) (hi : i < n) :
     vget (lapMatvec (lapInit F n a reg false) a x) i = Spec.lapApply n a reg (vget x) i := by
   have hw := lapInit_weights F n a reg false i hi
   rw [Spec.lapApply, degReg_eq n hn, aReg_apply]
-  by_cases hr : 0 < reg
-  · simp only [lapMatvec, lapInit, hr, if_true, vget_tab, hi, sumN_eq_sum, Bool.false_eq_true, if_false, mul_one]
+  by_cases hr : reg = 0
+  · simp only [lapMatvec, lapInit, hr, beq_self_eq_true, Bool.not_true, vget_tab, hi, sumN_eq_sum,
+      Bool.false_eq_true, if_false, if_true, mul_one]
     ring
-  · have h0 : reg = 0 := le_antisymm (not_lt.mp hr) hreg
-    simp only [lapMatvec, lapInit, hr, if_false, vget_tab, hi, sumN_eq_sum, Bool.false_eq_true, if_true, mul_one]
-    rw [h0]; ring
+  · have hb : (!(reg == 0)) = true := by simp [hr]
+    simp only [lapMatvec, lapInit, hb, if_true, vget_tab, hi, sumN_eq_sum, Bool.false_eq_true, if_false, mul_one]
+    ring
 
 /-- the diagonal `D^{-1/2}` of the normalised operator -/
 theorem lapInit_normDiag (F : Fn α) (n : Nat) (a : Mat α) (reg : α) (i : Nat) (hi : i < n) :
@@ -66,7 +67,7 @@ theorem lapInit_normDiag (F : Fn α) (n : Nat) (a : Mat α) (reg : α) (i : Nat)
   simp [lapInit, hi, sumN_eq_sum]
 
 /-- `Laplacian._matvec` with normalisation is `S (D_reg − A_reg) S x`, `S = diag(norm_diag)` -/
-theorem lapMatvec_normalized (F : Fn α) (n : Nat) (hn : 0 < n) (a : Mat α) (reg : α) (hreg : 0 ≤ reg)
+theorem lapMatvec_normalized (F : Fn α) (n : Nat) (hn : 0 < n) (a : Mat α) (reg : α)
     (x : Vec α) (i : Nat) (hi : i < n) :
     vget (lapMatvec (lapInit F n a reg true) a x) i
       = vget (lapInit F n a reg true).normDiag i
@@ -77,18 +78,18 @@ theorem lapMatvec_normalized (F : Fn α) (n : Nat) (hn : 0 < n) (a : Mat α) (re
   have h1 : op.n = n := by rw [← hop]; rfl
   have h2 : op.reg = reg := by rw [← hop]; rfl
   have h3 : op.normalized = true := by rw [← hop]; rfl
-  by_cases hr : 0 < reg
+  by_cases hr : reg = 0
   · unfold lapMatvec
-    simp only [h1, h2, h3, hr, if_true]
+    simp only [h1, h2, h3, hr, beq_self_eq_true, Bool.not_true, Bool.false_eq_true, if_true, if_false]
     simp +contextual only [vget_tab, hi, if_true]
     simp only [sumN_eq_sum, hw]
     ring
-  · have h0 : reg = 0 := le_antisymm (not_lt.mp hr) hreg
+  · have hb : (!(reg == 0)) = true := by simp [hr]
     unfold lapMatvec
-    simp only [h1, h2, h3, hr, if_true, if_false]
+    simp only [h1, h2, h3, hb, if_true]
     simp +contextual only [vget_tab, hi, if_true]
     simp only [sumN_eq_sum, hw]
-    rw [h0]; ring
+    ring
 
 /-- scalar facts behind `D^{-1/2}`: with `r² = d`, `(r⁺)² = d⁺` and `(r⁺)² d r⁺ = r⁺` -/
 theorem pinv_sq_of_sq {r d : α} (h : r * r = d) : pinv r * pinv r = pinv d := by
@@ -107,7 +108,7 @@ theorem pinv_sq_mul_of_sq {r d : α} (h : r * r = d) : pinv r * pinv r * d * pin
     `Laplacian(adjacency, reg, normalized_laplacian=True)` of the model, then `(1 − λ, D^{-1/2} u)` is an eigenpair of
     the random-walk transition matrix `D_reg⁻¹ A_reg` of the specification (`D⁻¹` the pseudo-inverse, so isolated
     nodes without regularisation are covered).  `sqrt` only has to square back on the regularised degrees. -/
-theorem rw_eigen_of_sym_vec (F : Fn α) (n : Nat) (hn : 0 < n) (a : Mat α) (reg : α) (hreg : 0 ≤ reg)
+theorem rw_eigen_of_sym_vec (F : Fn α) (n : Nat) (hn : 0 < n) (a : Mat α) (reg : α)
     (hsq : ∀ i, i < n → F.sqrt ((∑ j ∈ range n, mget a i j) + reg) * F.sqrt ((∑ j ∈ range n, mget a i j) + reg)
                         = (∑ j ∈ range n, mget a i j) + reg)
     (u : Vec α) (lam : α)
@@ -117,7 +118,7 @@ theorem rw_eigen_of_sym_vec (F : Fn α) (n : Nat) (hn : 0 < n) (a : Mat α) (reg
         = (1 - lam) * (vget (lapInit F n a reg true).normDiag i * vget u i) := by
   intro i hi
   have h := heig i hi
-  rw [lapMatvec_normalized F n hn a reg hreg u i hi, Spec.lapApply, degReg_eq n hn] at h
+  rw [lapMatvec_normalized F n hn a reg u i hi, Spec.lapApply, degReg_eq n hn] at h
   rw [Spec.transApply, degReg_eq n hn]
   have hs := lapInit_normDiag F n a reg i hi
   have h1 := pinv_sq_of_sq (hsq i hi)
